@@ -30,23 +30,34 @@ static SITE_CACHE: Mutex<Option<HashMap<String, String>>> = Mutex::new(None);
 
 fn innermost_repo_frame() -> String {
     let bt = std::backtrace::Backtrace::force_capture().to_string();
-    // lines look like "  12: xml_info::XmlText::insert" possibly followed by "at /repo/...".
+    // frames look like "  12: xml_info::XmlText::insert" followed by "             at /repo/info/src/lib.rs:123:4"
+    let mut last_sym = String::new();
     for line in bt.lines() {
         let l = line.trim();
-        let sym = match l.split_once(": ") {
-            Some((n, s)) if n.chars().all(|c| c.is_ascii_digit()) => s,
-            _ => continue,
-        };
-        let s = sym.trim_start_matches('<');
-        if s.starts_with("xml_nom") || s.starts_with("xml_parser") || s.starts_with("xml_info") || s.starts_with("xml_dom") || s.starts_with("xml_xpath") {
-            // strip hash suffix and generic noise
-            let mut f = sym.to_string();
-            if let Some(p) = f.rfind("::h") {
-                if f[p + 3..].chars().all(|c| c.is_ascii_hexdigit()) {
-                    f.truncate(p);
-                }
+        if let Some((n, s)) = l.split_once(": ") {
+            if !n.is_empty() && n.chars().all(|c| c.is_ascii_digit()) {
+                last_sym = s.to_string();
+                continue;
             }
-            return f;
+        }
+        if let Some(path) = l.strip_prefix("at ") {
+            if let Some(rest) = path.strip_prefix("/repo/") {
+                let krate = rest.split('/').next().unwrap_or("");
+                // strip generic arguments and hash suffixes: keep the function path only
+                let mut f = last_sym.clone();
+                if let Some(p) = f.find('<') {
+                    if p > 0 {
+                        f.truncate(p);
+                    }
+                }
+                if let Some(p) = f.rfind("::h") {
+                    if f[p + 3..].chars().all(|c| c.is_ascii_hexdigit()) {
+                        f.truncate(p);
+                    }
+                }
+                let f = f.rsplit("::").next().unwrap_or("").to_string();
+                return format!("{}:{}", krate, f);
+            }
         }
     }
     "unknown".to_string()
